@@ -495,38 +495,60 @@ func ruleChallenge(c *Ctx, rule string) {
 	c.Rule(rule, "challenge: the nonce in a 401/438 challenge is minted by req.NonceHash.Generate() on the same req whose NonceHash validates; Request.NonceHash is assigned only from Server.nonceHash, which is assigned once (in NewServer); the realm of the challenge is req.Realm", 3)
 	fn := w.Func("server", "", "authenticateRequest")
 	reqKey := w.key(fn.Params[0])
-	var gen *ssa.Call
+	// the calls of authenticateRequest, of its function literals and of the unexported helpers
+	// they use (depth ≤ 2), with values expressed in authenticateRequest's own terms
+	type rcall struct {
+		call *ssa.Call
+		rs   func(ssa.Value) ssa.Value
+	}
+	var calls []rcall
 	for _, f := range withAnon(fn) {
-		w.eachInstr(f, func(in ssa.Instruction) {
-			if call, ok := in.(*ssa.Call); ok && call.Call.IsInvoke() && call.Call.Method.Name() == "Generate" {
-				gen = call
-			}
+		w.eachCallThrough(f, 2, func(call *ssa.Call, rs func(ssa.Value) ssa.Value) {
+			calls = append(calls, rcall{call, rs})
 		})
 	}
+	var gens []rcall
+	for _, rc := range calls {
+		if rc.call.Call.IsInvoke() && rc.call.Call.Method.Name() == "Generate" {
+			gens = append(gens, rc)
+		}
+	}
 	c.Anchor(rule, "Generate")
-	if gen == nil {
+	if len(gens) == 0 {
 		c.Bad(rule, fname(fn), "Generate", w.pos(fn.Pos()), "no nonce is generated in authenticateRequest")
-	} else if w.key(gen.Call.Value) != reqKey+".NonceHash" {
-		c.Bad(rule, fname(gen.Parent()), "Generate", w.instrPos(gen), "challenge nonce minted by "+w.key(gen.Call.Value)+", validation uses req.NonceHash")
-	} else {
+	}
+	seenGen := map[*ssa.Call]bool{}
+	for _, g := range gens {
+		gen := g.call
+		if k := w.key(g.rs(gen.Call.Value)); k != reqKey+".NonceHash" {
+			c.Bad(rule, fname(gen.Parent()), "Generate", w.instrPos(gen), "challenge nonce minted by "+k+", validation uses req.NonceHash")
+			continue
+		}
 		// the generated nonce and req.Realm go into the challenge
 		nn := w.Func("stun", "", "NewNonce")
 		nr := w.Func("stun", "", "NewRealm")
 		okN, okR := false, false
-		w.eachInstr(gen.Parent(), func(in ssa.Instruction) {
-			call, ok := in.(*ssa.Call)
-			if !ok {
-				return
+		for _, rc := range calls {
+			if rc.call.Parent() != gen.Parent() {
+				continue
 			}
-			if call.Call.StaticCallee() == nn {
-				gc, gi := callOf(call.Call.Args[0])
-				okN = gc == gen && gi == 0
+			if rc.call.Call.StaticCallee() == nn {
+				gc, gi := callOf(rc.call.Call.Args[0])
+				if gc == gen && gi == 0 {
+					okN = true
+				}
 			}
-			if call.Call.StaticCallee() == nr {
-				okR = w.key(call.Call.Args[0]) == reqKey+".Realm"
+			if rc.call.Call.StaticCallee() == nr {
+				if w.key(rc.rs(rc.call.Call.Args[0])) == reqKey+".Realm" {
+					okR = true
+				}
 			}
-		})
+		}
 		if okN && okR {
+			if seenGen[gen] {
+				continue // the same helper reached from another call site: already reported
+			}
+			seenGen[gen] = true
 			c.OK(rule, fname(gen.Parent()), "Generate", w.instrPos(gen), "challenge carries NewNonce(req.NonceHash.Generate()) and NewRealm(req.Realm)")
 		} else {
 			c.Bad(rule, fname(gen.Parent()), "Generate", w.instrPos(gen), fmt.Sprintf("challenge does not carry the generated nonce (%v) / req.Realm (%v)", okN, okR))
@@ -611,7 +633,7 @@ func ruleNonceValidators(c *Ctx, rule string) {
 				return false
 			}
 			_, fl, isL := fieldLoad(w.resolveInStack(call.Call.Args[1], stack))
-			return isL && fl.Name() == "key"
+			return isL && nm(fl) == "key"
 		}
 		isKeyedMAC := func(v ssa.Value) bool { return isKeyedMACIn(v, nil) }
 		_ = isKeyedMAC
@@ -636,6 +658,7 @@ func ruleNonceValidators(c *Ctx, rule string) {
 			}
 			facts := w.factsAt(ret)
 			okMAC, okExp := false, false
+			lifetimeSec := float64(-1)
 			macWhy := "no hmac.Equal on the path"
 			for _, f := range facts {
 				if f.Op == "true" && f.Truth {
@@ -662,12 +685,63 @@ func ruleNonceValidators(c *Ctx, rule string) {
 							okExp = true
 						}
 					}
+					// the same bound in any algebraic arrangement (now > stamp + K, now - stamp > K,
+					// Since(stamp) > K, ...): the difference of the two sides is a linear form with
+					// a non-zero constant, a clock-dependent atom and a nonce-dependent atom of
+					// opposite signs (or one atom depending on both)
+					ai := w.absint()
+					d := ai.linOf(termOf(f.Y), 4).addScaled(ai.linOf(termOf(f.X), 4), -1)
+					if d.ok && d.c != 0 {
+						var cNow, cNonce int64
+						var nowV ssa.Value
+						both := false
+						for k, cf := range d.coef {
+							at := d.atoms[k]
+							if at.Len {
+								continue
+							}
+							dn, dp := dep(at.V, onNow), dep(at.V, onParam)
+							switch {
+							case dn && dp:
+								both, cNow, nowV = true, cf, at.V
+							case dn:
+								cNow, nowV = cf, at.V
+							case dp:
+								cNonce = cf
+							}
+						}
+						if both || (cNow != 0 && cNonce != 0 && (cNow > 0) != (cNonce > 0)) {
+							okExp = true
+							if cNow != 0 && nowV != nil {
+								k := d.c
+								if k < 0 {
+									k = -k
+								}
+								cn := cNow
+								if cn < 0 {
+									cn = -cn
+								}
+								if sp := secondsPerUnit(w, nowV, 0); sp > 0 {
+									lifetimeSec = float64(k) / float64(cn) * sp
+								}
+							}
+						}
+					}
 				}
 			}
 			if okMAC {
 				c.OK(rule, fname(fn), "MAC check", w.instrPos(ret), "nil is returned only on the true edge of hmac.Equal(bytes of the nonce, HMAC(recv.key, bytes of the nonce))")
 			} else {
 				c.Bad(rule, fname(fn), "MAC check", w.instrPos(ret), "Validate can accept a nonce without an authentic MAC: "+macWhy, w.factsDesc(ret)...)
+			}
+			if okExp && lifetimeSec >= 0 {
+				// C03.6e: the bound, converted to seconds through the units of the clock term
+				// (Unix() seconds, /60 minutes, UnixMilli, Duration nanoseconds), is one hour
+				if lifetimeSec > 3599 && lifetimeSec < 3661 {
+					c.OK(rule, fname(fn), "lifetime", w.instrPos(ret), fmt.Sprintf("the age bound is %.0f s in the units of the comparison", lifetimeSec))
+				} else {
+					c.Bad(rule, fname(fn), "lifetime", w.instrPos(ret), fmt.Sprintf("the expiry comparison bounds the nonce's age to %.3g s, not to one hour: the two sides are in different units (e.g. a count of minutes compared with a time.Duration) or the constant is wrong", lifetimeSec))
+				}
 			}
 			if okExp {
 				c.OK(rule, fname(fn), "expiry check", w.instrPos(ret), "nil is returned only under a comparison depending on time.Now and on the nonce's timestamp")
@@ -1016,7 +1090,7 @@ func ruleMACCoversTimestamp(c *Ctx, rule string) {
 				}
 				calls = append(calls, rc)
 				if cal == hmacNew {
-					if _, fl, isL := fieldLoad(rc.args[1]); !isL || fl.Name() != "key" {
+					if _, fl, isL := fieldLoad(rc.args[1]); !isL || nm(fl) != "key" {
 						return
 					}
 					m := macIn{h: call}
@@ -1058,6 +1132,19 @@ func ruleMACCoversTimestamp(c *Ctx, rule string) {
 									okWhy = fmt.Sprintf("MAC input [%d:%d] holds the %d low-order bytes of the %s-encoded timestamp", lo, hi, hi-lo, c2.name)
 								}
 							}
+							// r = AppendUintW(fresh[:L0], t): r[L0:L0+W] holds the integer
+							if wd := uintWidth(c2.name, "AppendUint"); wd > 0 && strings.Contains(c2.full, "encoding/binary") {
+								// the appended-to slice: fresh storage of a statically known length L0
+								fb, flo, fhi := sliceRange(c2.args[1])
+								fresh := false
+								switch fb.(type) {
+								case *ssa.MakeSlice, *ssa.Alloc:
+									fresh = true
+								}
+								if l0 := fhi - flo; fresh && flo == 0 && fhi >= 0 && stripIface(base) == ssa.Value(c2.call) && hi == l0+wd && hi-lo >= 4 && lo >= l0 {
+									okWhy = fmt.Sprintf("MAC input [%d:%d] holds the %d low-order bytes of the %s-encoded timestamp", lo, hi, hi-lo, c2.name)
+								}
+							}
 						}
 					}
 					if okWhy != "" {
@@ -1072,4 +1159,68 @@ func ruleMACCoversTimestamp(c *Ctx, rule string) {
 			}
 		}
 	}
+}
+
+// secondsPerUnit: how many seconds one unit of an integer time value stands for, inferred
+// from how it is computed: (time.Time).Unix() counts seconds, UnixMilli/UnixMicro/UnixNano
+// and time.Duration values (Since, Sub, Until) count their fractions, x/k counts k times the
+// unit of x, x*k a k-th, conversions and additions keep the unit. 0 when unknown.
+func secondsPerUnit(w *World, v ssa.Value, depth int) float64 {
+	if depth > 8 {
+		return 0
+	}
+	v = w.resolveLoad(v)
+	switch x := v.(type) {
+	case *ssa.Convert:
+		return secondsPerUnit(w, x.X, depth+1)
+	case *ssa.ChangeType:
+		return secondsPerUnit(w, x.X, depth+1)
+	case *ssa.Call:
+		cal := x.Call.StaticCallee()
+		if cal == nil {
+			return 0
+		}
+		switch cal.String() {
+		case "(time.Time).Unix":
+			return 1
+		case "(time.Time).UnixMilli":
+			return 1e-3
+		case "(time.Time).UnixMicro":
+			return 1e-6
+		case "(time.Time).UnixNano", "time.Since", "time.Until", "(time.Time).Sub":
+			return 1e-9
+		case "(time.Duration).Seconds":
+			return 1
+		case "(time.Duration).Minutes":
+			return 60
+		case "(time.Duration).Milliseconds":
+			return 1e-3
+		}
+	case *ssa.BinOp:
+		switch x.Op {
+		case token.QUO:
+			if k, ok := constInt(x.Y); ok && k > 0 {
+				if s := secondsPerUnit(w, x.X, depth+1); s > 0 {
+					return s * float64(k)
+				}
+			}
+		case token.MUL:
+			if k, ok := constInt(x.Y); ok && k > 0 {
+				if s := secondsPerUnit(w, x.X, depth+1); s > 0 {
+					return s / float64(k)
+				}
+			}
+			if k, ok := constInt(x.X); ok && k > 0 {
+				if s := secondsPerUnit(w, x.Y, depth+1); s > 0 {
+					return s / float64(k)
+				}
+			}
+		case token.ADD, token.SUB:
+			if s := secondsPerUnit(w, x.X, depth+1); s > 0 {
+				return s
+			}
+			return secondsPerUnit(w, x.Y, depth+1)
+		}
+	}
+	return 0
 }
